@@ -175,3 +175,5 @@ func c03StackCheck(r *vfPair) string {
 	}
 	return fmt.Sprintf("the ChangeCipherSpec record of side %d was modified in flight (%s) and never sent again, yet both endpoints completed: the signal the receiver accepted is not the one the sender sent", c03CCSTamper.dir, c03CCSTamper.descr)
 }
+
+func c03SetPMTU(c *Config, pmtu int) { c.PMTU = pmtu }
